@@ -2388,12 +2388,17 @@ class MutableGitIndexTree(mutabletree.MutableTree, GitTree):
             This method is inventory-specific and should not normally be called.
         """
         # TODO(jelmer): This shouldn't be called, it's inventory specific.
-        for old_path, new_path, _file_id, ie in delta:
+        # Remove all old paths first: a kind change is reported as an
+        # addition followed by a removal of the same path, and a removal
+        # processed after the addition would drop the path from the index.
+        delta = list(delta)
+        for old_path, _new_path, _file_id, _ie in delta:
             if old_path is not None:
                 (index, old_subpath) = self._lookup_index(encode_git_path(old_path))
                 if old_subpath in index:
                     self._index_del_entry(index, old_subpath)
                     self._versioned_dirs = None
+        for _old_path, new_path, _file_id, ie in delta:
             if new_path is not None and ie.kind != "directory":
                 self._index_add_entry(new_path, ie.kind)
         self.flush()
